@@ -21,6 +21,8 @@ enum Step {
     FreshEqualStore,
     /// retract every logical (derived) fact in the attached RETE engine
     RetractDerivedInRete,
+    /// reconfigure the engine (set_config): from here on the fresh engine is built with this configuration
+    SetConfig(Cfg),
 }
 
 fn spell(g: &GoalQ, style: u8) -> String {
@@ -33,7 +35,7 @@ fn spell(g: &GoalQ, style: u8) -> String {
     }
 }
 
-fn gen_history(s: &mut Src, kb: &Kb) -> Vec<Step> {
+fn gen_history(s: &mut Src, kb: &Kb, cfg0: &Cfg) -> Vec<Step> {
     let n = 2 + s.below(5);
     let mut goals: Vec<GoalQ> = Vec::new();
     let mut steps = Vec::new();
@@ -70,6 +72,21 @@ fn gen_history(s: &mut Src, kb: &Kb) -> Vec<Step> {
         };
         steps.push(st);
     }
+    // a reconfiguration somewhere in the history (drawn after the steps, so that histories written before this
+    // existed decode as before): another strategy / max_solutions / memo flag, mostly with the SAME max_depth
+    if s.chance(1, 3) {
+        let pos = s.below(steps.len() + 1);
+        let mut c = cfg0.clone();
+        match s.below(4) {
+            0 | 1 => c.strat = if c.strat == Strat::Dfs { Strat::Bfs } else { Strat::Dfs },
+            2 => c.max_solutions = if c.max_solutions == 1 { 3 } else { 1 },
+            _ => c.memo = !c.memo,
+        }
+        if s.chance(1, 4) {
+            c.max_depth = s.below(5);
+        }
+        steps.insert(pos, Step::SetConfig(c));
+    }
     // always end with a query
     let g = if !goals.is_empty() && s.chance(2, 3) { goals[s.below(goals.len())].clone() } else { gen_goal(s, kb) };
     let style = [0u8, 0, 1, 2][s.below(4)];
@@ -87,7 +104,7 @@ pub fn run(s: &mut Src, ctx: &mut Ctx) -> Verdict {
     let with_rete = s.chance(1, 3);
     let kb = gen_kb(s, 5, None);
     let st0 = crate::bc::gen_store(s, &kb);
-    let steps = gen_history(s, &kb);
+    let steps = gen_history(s, &kb, &cfg);
     if probe_only() {
         return Verdict::Pass;
     }
@@ -97,7 +114,11 @@ pub fn run(s: &mut Src, ctx: &mut Ctx) -> Verdict {
         Step::Remove(k) => format!("remove {}", k),
         Step::FreshEqualStore => "fresh-equal-store".to_string(),
         Step::RetractDerivedInRete => "retract-derived-in-rete".to_string(),
+        Step::SetConfig(c) => format!("set_config({:?})", c),
     }).collect::<Vec<_>>().join("; ")));
+    let cfg_initial = cfg.clone();
+    let mut cfg = cfg;
+    let mut reconfigured = false;
     let mut engine = build_engine(&kb, &cfg);
     let rete = if with_rete { Some(Arc::new(Mutex::new(IncrementalEngine::new()))) } else { None };
     let mut facts = to_facts(&st0);
@@ -109,6 +130,11 @@ pub fn run(s: &mut Src, ctx: &mut Ctx) -> Verdict {
             Step::SetBase(k, v) => facts.set(k, v.to_engine()),
             Step::Remove(k) => {
                 facts.remove(k);
+            }
+            Step::SetConfig(c) => {
+                engine.set_config(c.to_engine());
+                cfg = c.clone();
+                reconfigured = true;
             }
             Step::FreshEqualStore => {
                 let copy = from_facts(&facts);
@@ -152,9 +178,10 @@ pub fn run(s: &mut Src, ctx: &mut Ctx) -> Verdict {
                 if answer != fresh_answer {
                     let earlier_same = asked.iter().any(|(t, _, _)| t == &text);
                     let sig = format!(
-                        "history-dependent-answer:{}{}{}",
+                        "history-dependent-answer:{}{}{}{}",
                         if cfg.memo { "memo-on" } else { "memo-off" },
                         if earlier_same { ":same-query-asked-before" } else { ":other-queries-only" },
+                        if reconfigured { ":after-set_config" } else { "" },
                         if with_rete { ":rete-attached" } else { "" }
                     );
                     return Verdict::fail(
@@ -178,6 +205,10 @@ pub fn run(s: &mut Src, ctx: &mut Ctx) -> Verdict {
     if with_rete {
         ctx.label("rete-attached");
     }
+    if reconfigured {
+        ctx.label("reconfigured-by-set_config");
+    }
+    let _ = cfg_initial;
     if nt {
         ctx.label("repeat-with-flipped-answer-or-equal-store");
     }
@@ -191,9 +222,9 @@ pub fn property() -> Property {
     Property {
         id: "C11",
         level: "exploration",
-        rule: "generated: one BackwardEngine (memoisation on 3/4, DFS or BFS, max_depth 0..4, max_solutions 1/3, optionally an attached IncrementalEngine) over a Horn KB of 1-5 rules; histories of 3-7 steps: query (half of them repeat an earlier goal, in one of three spellings: canonical, no blanks, doubled blanks), assert/change a base fact (including type twins: the same text as a string instead of a number/boolean), remove a base or derived fact, hand in a brand-new equal store, retract all logical facts in the attached RETE engine; always ending with a query. Oracle: for every query, provable equals the answer of a freshly constructed engine (same KB, same config, fresh RETE engine if attached) on a deep copy of the facts as they were just before the query. Non-trivial: a goal is repeated after the facts changed so that the fresh engine's answer flips, or repeated on an equal store; distinct by (KB, store, config, history).",
+        rule: "generated: one BackwardEngine (memoisation on 3/4, DFS or BFS, max_depth 0..4, max_solutions 1/3, optionally an attached IncrementalEngine) over a Horn KB of 1-5 rules; histories of 3-7 steps: query (half of them repeat an earlier goal, in one of three spellings: canonical, no blanks, doubled blanks), assert/change a base fact (including type twins: the same text as a string instead of a number/boolean), remove a base or derived fact, hand in a brand-new equal store, retract all logical facts in the attached RETE engine, and in one history of three a set_config call (other strategy / max_solutions / memo flag, mostly the same max_depth) after which the fresh engine is built with the new configuration; always ending with a query. Oracle: for every query, provable equals the answer of a freshly constructed engine (same KB, same config, fresh RETE engine if attached) on a deep copy of the facts as they were just before the query. Non-trivial: a goal is repeated after the facts changed so that the fresh engine's answer flips, or repeated on an equal store; distinct by (KB, store, config, history).",
         assumptions: vec!["the fresh engine is the same code without history: the oracle isolates exactly the dependence on history; engine errors/panics are counted, not judged".into()],
-        parts: vec![Part { name: "random", run, quick: Budget::Random { cases: 400_000, bytes: 400 }, thorough: Budget::Random { cases: 2_000_000, bytes: 400 }, min_nontrivial_pct: 15 }],
+        parts: vec![Part { name: "random", run, quick: Budget::Random { cases: 400_000, bytes: 400 }, thorough: Budget::Random { cases: 10_000_000, bytes: 400 }, min_nontrivial_pct: 15 }],
         watchdog: true,
         replay_reps: 5,
     }
